@@ -223,3 +223,107 @@ Proof.
     rewrite gs_trim_c. change 62%N with c_gt. rewrite <- app_assoc. reflexivity.
   - match goal with |- context [?x =? 2] => replace (x =? 2) with false by (unfold gs_len; cbn [length]; lia) end. reflexivity.
 Qed.
+
+(* ------------------------------------------------------------------------------------------- *)
+(* the methods of elem and the listing getters *)
+Theorem tr_elem_methods : forall e name child line value kd,
+  tr_addLine e line = Some (ge_set_line e (ge_line e ++ [line])) /\
+  tr_setValue e value = Some (ge_set_value e value) /\
+  tr_addChild e name child = Some (ge_set_children e (gs_map_set (ge_children e) name child)) /\
+  tr_findChild e name = Some (gs_map_get2 (ge_children e) name) /\
+  tr_newElem kd name = Some {| ge_kind := kd; ge_name := name; ge_value := []; ge_children := []; ge_line := [] |}.
+Proof.
+  intros. repeat split; try reflexivity. unfold tr_findChild. destruct (gs_map_get2 (ge_children e) name); reflexivity.
+Qed.
+
+(* an element of the model's store as the Go code sees it: its children (in store order) and its lines *)
+Definition kind_z (k : kind) : Z := match k with KNode => k_conf_Node | KLeaf => k_conf_Leaf end.
+Fixpoint child_view (s : store) (K : key) : list (gstr * gchild) :=
+  match s with
+  | [] => []
+  | e :: r => match child_name K e with
+              | Some n => (n, {| gc_kind := kind_z (ikind (snd e)); gc_name := n; gc_value := ivalue (snd e) |}) :: child_view r K
+              | None => child_view r K
+              end
+  end.
+Definition elem_view (s : store) (K : key) (i : info) : gelem :=
+  {| ge_kind := kind_z (ikind i); ge_name := hd [] K; ge_value := ivalue i; ge_children := child_view s K; ge_line := rev (ilines i) |}.
+Definition no_elem : gelem := {| ge_kind := 0; ge_name := []; ge_value := []; ge_children := []; ge_line := [] |}.
+(* e.getElem(pathVec) *)
+Definition get_elem_view (s : store) (v : list bytes) : gelem * bool :=
+  match lookup s (key_of_vec v) with Some i => (elem_view s (key_of_vec v) i, false) | None => (no_elem, true) end.
+
+Definition kind_test (kd : kind) (c : gchild) : option bool :=
+  match kd with KNode => tr_isNode c | KLeaf => tr_isLeaf c end.
+Lemma kind_test_view kd i n : kind_test kd {| gc_kind := kind_z (ikind i); gc_name := n; gc_value := ivalue i |} = Some (is_kind kd i).
+Proof. destruct kd; destruct i as [[|] v l]; reflexivity. Qed.
+
+Lemma fold_names kd : forall s K acc,
+  fold_left (fun (g_st : option (list gstr)) (g_child : gchild) =>
+     match g_st with
+     | None => None
+     | Some a => if gs_is_some (kind_test kd g_child)
+                 then (if gs_get false (kind_test kd g_child) then (let a := a ++ [gc_name g_child] in Some a) else Some a)
+                 else None
+     end) (map snd (child_view s K)) (Some acc) = Some (acc ++ map fst (children kd s K)).
+Proof.
+  induction s as [|e r IH]; intros K acc; cbn [child_view children map fold_left]; [rewrite app_nil_r; reflexivity|].
+  destruct (child_name K e) as [n|]; [|apply IH]. cbn [map snd fold_left]. rewrite kind_test_view. cbn [gs_is_some gs_get].
+  destruct (is_kind kd (snd e)); cbn [gc_name map fst]; rewrite IH; [rewrite <- app_assoc; reflexivity|reflexivity].
+Qed.
+
+Lemma fold_pairs : forall s K acc,
+  fold_left (fun (g_st : option (list (gstr * gstr))) (g_child : gchild) =>
+     match g_st with
+     | None => None
+     | Some a => if gs_is_some (tr_isLeaf g_child)
+                 then (if gs_get false (tr_isLeaf g_child) then (let a := gs_map_set a (gc_name g_child) (gc_value g_child) in Some a) else Some a)
+                 else None
+     end) (map snd (child_view s K)) (Some acc) =
+  Some (fold_left (fun m kv => gs_map_set m (fst kv) (snd kv)) (children KLeaf s K) acc).
+Proof.
+  induction s as [|e r IH]; intros K acc; cbn [child_view children map fold_left]; [reflexivity|].
+  destruct (child_name K e) as [n|]; [|apply IH]. cbn [map snd fold_left].
+  change (tr_isLeaf ?c) with (kind_test KLeaf c). rewrite kind_test_view. cbn [gs_is_some gs_get].
+  destruct (is_kind KLeaf (snd e)); cbn [gc_name gc_value fold_left fst snd]; apply IH.
+Qed.
+
+Theorem tr_listing_getters_equiv : forall s p v, analysis_path p = Ok v ->
+  let nd := get_elem_view s v in
+  tr_getDomain p (fst nd) (snd nd) = Some (match get_domain s p with Ok l => l | _ => [] end, snd nd) /\
+  tr_getDomainKey p (fst nd) (snd nd) = Some (match get_domain_key s p with Ok l => l | _ => [] end, snd nd) /\
+  tr_getDomainLine p (fst nd) (snd nd) = Some (match get_domain_line s p with Ok l => l | _ => [] end, snd nd) /\
+  tr_getMap p (fst nd) (snd nd) =
+    Some (fold_left (fun m kv => gs_map_set m (fst kv) (snd kv)) (match get_map s p with Ok l => l | _ => [] end) [], snd nd) /\
+  (forall d, tr_getValue p (fst nd) (snd nd) = Some (match lookup s (key_of_vec v) with Some i => ivalue i | None => [] end, snd nd)
+             /\ get_string_def s p d = Ok (match lookup s (key_of_vec v) with Some i => ivalue i | None => d end)).
+Proof.
+  intros s p v Hp nd. subst nd. unfold get_elem_view.
+  unfold tr_getDomain, tr_getDomainKey, tr_getDomainLine, tr_getMap, tr_getValue, get_domain, get_domain_key, get_domain_line, get_map, get_string_def.
+  rewrite !(with_elem_path s p v Hp), tr_analysisPath_equiv, Hp.
+  destruct (lookup s (key_of_vec v)) as [i|] eqn:L; cbn [fst snd Bool.eqb negb].
+  - repeat split; try reflexivity;
+      try (change (tr_isNode ?c) with (kind_test KNode c); cbn [elem_view ge_children]; rewrite fold_names; reflexivity);
+      try (change (tr_isLeaf ?c) with (kind_test KLeaf c); cbn [elem_view ge_children]; rewrite fold_names; reflexivity);
+      try (cbn [elem_view ge_line app]; rewrite frev_rev; reflexivity);
+      try (cbn [elem_view ge_children]; rewrite fold_pairs; reflexivity);
+      try (rewrite (with_elem_path s p v Hp), L; reflexivity).
+  - repeat split; try reflexivity; rewrite (with_elem_path s p v Hp), L; reflexivity.
+Qed.
+
+(* with distinct names (every represented store) the map built by getMap is the list of leaves itself *)
+Lemma map_set_fresh {V} : forall (m : list (gstr * V)) k v, ~ In k (map fst m) -> gs_map_set m k v = m ++ [(k, v)].
+Proof.
+  induction m as [|[k' v'] m IH]; intros k v H; [reflexivity|]. cbn [gs_map_set]. cbn in H.
+  destruct (gs_eqb k' k) eqn:E.
+  - exfalso. apply H. left. apply (proj1 (bytes_eqb_eq k' k)). exact E.
+  - rewrite IH by tauto. reflexivity.
+Qed.
+Lemma map_set_all {V} : forall (l acc : list (gstr * V)), NoDup (map fst (acc ++ l)) ->
+  fold_left (fun m kv => gs_map_set m (fst kv) (snd kv)) l acc = acc ++ l.
+Proof.
+  induction l as [|[k v] l IH]; intros acc ND; [rewrite app_nil_r; reflexivity|]. cbn [fold_left fst snd].
+  assert (F : ~ In k (map fst acc)).
+  { rewrite map_app in ND. apply NoDup_remove_2 in ND. intros Hin. apply ND. apply in_or_app. left. exact Hin. }
+  rewrite map_set_fresh by exact F. rewrite IH; rewrite <- app_assoc; [reflexivity|exact ND].
+Qed.
